@@ -3,7 +3,7 @@
 wt=/tmp/wt/mut
 [ -d $wt ] || git -C /repo worktree add -q --detach $wt HEAD
 for p in /verif/benign/*.patch; do
-  name=$(basename $p .patch); prop=$(echo $name | cut -d- -f1 | tr a-z A-Z)
+  name=$(basename $p .patch); prop=$(echo $name | cut -d- -f1 | tr a-z A-Z | cut -c1-3)
   git -C $wt checkout -q --detach $(git -C /repo rev-parse HEAD) 2>/dev/null
   git -C $wt checkout -q -- . && git -C $wt clean -fdq
   git -C $wt apply $p || { echo "$name: patch does not apply"; continue; }
